@@ -115,42 +115,15 @@ func c13Apply(st string, op StoreOp) (string, string) {
 		return strings.Join(ks, ","), st
 	case "getall":
 		return st, st
-	case "getint":
-		if m[op.Key] >= 1000 {
-			return "0", st
-		}
-		return strconv.Itoa(m[op.Key]), st
-	case "getintor":
+	case "getint", "getintor", "getfloat", "getstring", "getsliceor", "getbool", "getmapor", "bind":
+		// Typed getters and Bind are reads. WHAT they answer for a given stored value is C15/C16's
+		// business; here only their linearizability matters, so the sequential specification is
+		// calibrated on the implementation itself (single-threaded, see c13Calibrate).
 		v, okk := m[op.Key]
-		if !okk || v >= 1000 {
-			v = -99
+		if !okk {
+			v = -1
 		}
-		return strconv.Itoa(v), st
-	case "getfloat":
-		if m[op.Key] >= 1000 {
-			return "0", st
-		}
-		return fmt.Sprint(float64(m[op.Key])), st
-	case "getstring":
-		return "", st // values are ints: GetString yields ""
-	case "getsliceor":
-		if v, okk := m[op.Key]; okk && v >= 1000 {
-			return fmt.Sprintf("[%d]", v-1000), st
-		}
-		return "d", st
-	case "getbool":
-		return "false", st // values are never bools
-	case "getmapor":
-		return "dm", st // values are never map[string]any
-	case "bind":
-		v, okk := m[op.Key]
-		switch {
-		case !okk:
-			return "err", st
-		case v >= 1000:
-			return fmt.Sprintf("[%d]", v-1000), st
-		}
-		return strconv.Itoa(v), st
+		return c13Calibrate()[fmt.Sprintf("%s|%d", op.Op, v)], st
 	}
 	panic("unknown op " + op.Op)
 }
@@ -175,6 +148,33 @@ func c13Decode(v any) int {
 		}
 	}
 	return -1
+}
+
+var (
+	c13CalibOnce sync.Once
+	c13CalibTab  map[string]string
+)
+
+// c13Calibrate records, single-threaded, what every typed getter / Bind answers for every value
+// the histories can store (missing, ints 1..9, typed slices 1001..1009).
+func c13Calibrate() map[string]string {
+	c13CalibOnce.Do(func() {
+		c13CalibTab = map[string]string{}
+		states := []int{-1}
+		for v := 1; v <= 9; v++ {
+			states = append(states, v, 1000+v)
+		}
+		for _, op := range []string{"getint", "getintor", "getfloat", "getstring", "getsliceor", "getbool", "getmapor", "bind"} {
+			for _, v := range states {
+				s := flyt.NewSharedStore()
+				if v >= 0 {
+					s.Set("k0", c13Val(v))
+				}
+				c13CalibTab[fmt.Sprintf("%s|%d", op, v)] = c13Exec(s, StoreOp{Op: op, Key: "k0"})
+			}
+		}
+	})
+	return c13CalibTab
 }
 
 // c13Exec runs one op against the real store and renders its output like the model does.
@@ -228,38 +228,16 @@ func c13Exec(s *flyt.SharedStore, op StoreOp) string {
 	case "getbool":
 		return strconv.FormatBool(s.GetBool(op.Key))
 	case "getmapor":
-		if m := s.GetMapOr(op.Key, map[string]any{"dm": 1}); len(m) == 1 && m["dm"] == 1 {
-			return "dm"
-		}
-		return "?"
+		return fmt.Sprintf("%v", s.GetMapOr(op.Key, map[string]any{"dm": 1}))
 	case "bind":
 		// the JSON path: an int arrives as float64, a []int as []any of float64
 		var dst any
 		if err := s.Bind(op.Key, &dst); err != nil {
 			return "err"
 		}
-		switch x := dst.(type) {
-		case float64:
-			return strconv.Itoa(int(x))
-		case []any:
-			if len(x) == 1 {
-				if f, isF := x[0].(float64); isF {
-					return fmt.Sprintf("[%d]", int(f))
-				}
-			}
-		}
-		return "?"
+		return fmt.Sprintf("%T:%v", dst, dst)
 	case "getsliceor":
-		v := s.GetSliceOr(op.Key, []any{"d"})
-		if len(v) == 1 && v[0] == "d" {
-			return "d"
-		}
-		if len(v) == 1 {
-			if x, isInt := v[0].(int); isInt {
-				return fmt.Sprintf("[%d]", x)
-			}
-		}
-		return "?"
+		return fmt.Sprintf("%v", s.GetSliceOr(op.Key, []any{"d"}))
 	}
 	return ""
 }
